@@ -467,8 +467,9 @@ def c06():
         la, lb = len(ai.split(",")), len(bi.split(","))
         nr = max(int(x) for x in (ai + "," + bi).split(",")) + 1
         qs.append(Q(f"accumulate_a{ai.replace(',', '')}_b{bi.replace(',', '')}", "fsm.cpp", "vh_accumulate", {"NS": 1, "LA": la, "LB": lb, "NRULES": nr, "AIDX": ai, "BIDX": bi}, unwind=la + lb + 4,
-                    unwindset={"accumulate_rules": la + lb + 3, "vh_accumulate": max(la + lb, nr) + 3}, tiers=("quick", "thorough") if (ai, bi) == ("0", "0") else ("thorough",), timeout=None if (ai, bi) == ("0", "0") else 1700,
-                    note="two different entries: no verdict in 240 s (every store into the 256-entry merge buffer is a case split once the first comparison is symbolic)"))
+                    unwindset={"accumulate_rules": la + lb + 3, "vh_accumulate": max(la + lb, nr) + 3}, tiers=("quick", "thorough") if la + lb <= 3 else ("thorough",), timeout=600 if la + lb <= 3 else 1700, est_gb=5,
+                    cbmc_flags=["--sat-solver", "cadical", "--max-field-sensitivity-array-size", "300"],
+                    note="minisat: 450 s (24 M clauses for the 256-entry merge buffer); cadical: ~80 s"))
     return qs
 
 # ------------------------------------------------------------------------------------------- C02
